@@ -34,6 +34,8 @@ struct DataRowIteratorTestData<'a> {
     /// List with the same number of entries as `expected_indices`.
     /// Each non-trivial entry is an index into the output vec from the driver.
     output_indices: Vec<OutputEntryIndex<'a>>,
+    /// Number of outputs the driver returned the first time
+    num_outputs: usize,
     prev: Option<Vec<DataEntry>>,
     cache: Vec<DataEntries>,
 }
@@ -254,6 +256,7 @@ impl<'a> DataRowIteratorTestData<'a> {
             .collect::<Vec<_>>();
         if missing.is_empty() {
             self.output_indices = output_indices;
+            self.num_outputs = outputs.len();
             Ok(())
         } else {
             Err(IterationError::Runtime(
@@ -262,19 +265,12 @@ impl<'a> DataRowIteratorTestData<'a> {
         }
     }
 
-    fn num_outputs(&self) -> usize {
-        self.output_indices
-            .iter()
-            .filter(|i| matches!(i, OutputEntryIndex::Output(_)))
-            .count()
-    }
-
     fn extract_output_values<E: std::error::Error>(
         &self,
         outputs: Vec<OutputEntry<'_>>,
         ctx: &mut EvalContext,
     ) -> Result<Vec<OutputValue>, IterationError<E>> {
-        let num_outputs = self.num_outputs();
+        let num_outputs = self.num_outputs;
 
         if outputs.len() != num_outputs {
             return Err(IterationError::Runtime(
@@ -318,6 +314,7 @@ impl<'a> DataRowIteratorTestData<'a> {
             input_indices: &test_case.input_indices,
             expected_indices: &test_case.expected_indices,
             output_indices: vec![],
+            num_outputs: 0,
             prev: None,
             cache: vec![],
         }
